@@ -790,4 +790,68 @@ theorem store_old_memory_counterexample :
     revert this
     decide
 
+/-! ### refused commands between successful ones -/
+
+/-- A refused edit (an empty line for a missing number, DELETE selecting nothing, a line that does not
+    fit in memory) leaves the concrete state -- bytes and index -- exactly as it was, so the rest of
+    any history runs as if the command had not been given. -/
+theorem rejected_edit_keeps_program (s : PState) (op : Op) (e : Nat) (ops : List Op)
+    (h : (step s op).2 = some e) :
+    (step s op).1 = s ∧ (run s (op :: ops)).1 = (run s ops).1 ∧
+      (run s (op :: ops)).2 = some e :: (run s ops).2 := by
+  have hs : (step s op).1 = s := by
+    cases op with
+    | store n body =>
+      simp only [step] at h ⊢
+      cases hst : store s n body with
+      | ok s' => rw [hst] at h; simp at h
+      | error e' => rfl
+    | delete a b =>
+      simp only [step] at h ⊢
+      cases hst : delete s a b with
+      | ok s' => rw [hst] at h; simp at h
+      | error e' => rfl
+    | new => simp [step] at h
+  refine ⟨hs, ?_, ?_⟩
+  · simp only [run]; rw [hs]
+  · simp only [run]; rw [hs, h]
+
+/-- ... and the specification refuses the same command with the same error number (Illegal function
+    call, Out of memory or Undefined line number), its map unchanged; LIST after the refused command
+    is the listing of the unchanged map. -/
+theorem rejected_edit_spec (s : PState) (op : Op) (e : Nat) (hI : Inv s) (hop : OpOk op)
+    (h : (step s op).2 = some e) :
+    specStep (cap s) (abs s) op = (abs s, some e) ∧
+      (e = E.ifc ∨ e = E.out_of_memory ∨ e = E.undefined_line_number) ∧
+      listLines (step s op).1 = abs s := by
+  have hk := (rejected_edit_keeps_program s op e [] h).1
+  have hr := step_refines s op hI hop
+  rw [hk] at hr
+  have h2 : (specStep (cap s) (abs s) op).2 = some e := by rw [← hr.2.2.1, h]
+  refine ⟨Prod.ext hr.2.1.symm h2, ?_, by rw [hk]; exact (list_is_spec s hI).1⟩
+  cases op with
+  | store n body =>
+    simp only [specStep, specStore] at h2
+    split at h2 <;> rename_i heq
+    · simp at h2
+    · simp only [Option.some.injEq] at h2
+      subst h2
+      split at heq
+      · split at heq
+        · cases heq
+        · injection heq with heq; exact Or.inr (Or.inr heq.symm)
+      · split at heq
+        · injection heq with heq; exact Or.inr (Or.inl heq.symm)
+        · cases heq
+  | delete a b =>
+    simp only [specStep, specDelete] at h2
+    split at h2 <;> rename_i heq
+    · simp at h2
+    · simp only [Option.some.injEq] at h2
+      subst h2
+      split at heq
+      · cases heq
+      · injection heq with heq; exact Or.inl heq.symm
+  | new => simp [specStep] at h2
+
 end PcbV.C13
